@@ -176,6 +176,7 @@ pub fn all_vals(ty: &Ty, cap: usize) -> Option<Vec<Val>> {
             }
             acc.into_iter().map(Val::Tuple).collect()
         }
+        Ty::Array(_, 0) => vec![Val::Array(vec![])],
         Ty::Array(a, n) => {
             let vs = all_vals(a, cap)?;
             let mut acc: Vec<Vec<Val>> = vec![vec![]];
